@@ -31,6 +31,9 @@ pub const LITERALS: &[&str] = &[
     "077", "08", "1l", "1L", "1ul", "1UL", "1uu", "0.0", "1.0", "1.", ".5", "1.0f", "1.0h", "1.0L", "1e10", "1e999", "1e-999", "1e+",
     "1e", "1.e5f", "3.402823466e+38f", "1.175494351e-38f", "1.7976931348623157e308", "4.9e-324", "0.1f", "1.#INF", "1.0lf",
     "1f", "1h", "0b101", "1'000", "\"str\"", "\"unterminated", "'c'", "true", "false",
+    "4294967296u", "0xFFFFFFFFFu", "040000000000u", "9223372036854775808l", "0xffffffffffffffffl", "01777777777777777777777l", "0777777777777777777777777",
+    "0x123456789abcdefABCDEF", "0xabcdefu", "0XFF", "01234567", "0129", "12lu", "12LU", "0x1Ful", "017uL", "0.0#INF", "1e5#INF", "1.#INFx", "1.5#IN", "1.#INFf", "2.0#INFh",
+    "0.5x", "1.0fx", "1.xyz", "\"a\\\"b\"", "\"é\"", "é", "1é",
 ];
 pub const IDENTS: &[&str] = &[
     "a", "b", "c", "x", "y", "i", "n", "f", "g", "main", "CSMAIN", "PSMAIN", "VSMAIN", "S", "T", "s", "v", "m", "g_tex", "g_buf", "g_cb",
@@ -51,6 +54,8 @@ pub const DIRECTIVES: &[&str] = &[
     "#include", "#include M", "#pragma once", "#pragma warning(disable: 1)", "#pragma foo", "#pragma", "#error x", "#line 3",
     "#", "# define M 2", "#unknown", "M", "M(1)", "M(1, 2)", "M(", "M(M(M(1)))", "A", "B(1)", "x ## y", "## x", "x ##",
     "RSSL_TARGET_HLSL ## 1", "x ## RSSL_TARGET_MSL", "__HLSL_VERSION ## x", "DEF ## DEF", "a DEF b",
+    "#include <abc", "#include <a", "#include \"abc", "#include <é>", "#include <a\\\nb>", "// c \\\n still comment", "/* c \\\n */", "#if false", "#if true && !false", "#define P(x) x ## \"", "P(a)",
+    "#define Q(x) \" ## x", "Q(b)", "#define R a ## /* c */ b", "R", "#if 1 // c \\\n 2",
 ];
 
 pub fn generate(kind: &str, seed: u64) -> Option<Vec<u8>> {
@@ -65,9 +70,13 @@ pub fn generate(kind: &str, seed: u64) -> Option<Vec<u8>> {
             let src = gen_grammar(&mut rng);
             mutate_tokens(&src, &mut rng).into_bytes()
         }
+        "cx" => gen_cx(&mut rng).text.into_bytes(),
         "syn" => gen_syn(&mut rng).text.into_bytes(),
         // the template of the seed-th category alone (every category is emitted at least once per run)
-        "synone" => syn_single(syn_categories().get(seed as usize)?)?.into_bytes(),
+        "synone" => {
+            let (c, a) = *syn_variants().get(seed as usize)?;
+            syn_single(c, a)?.into_bytes()
+        }
         "synmut" => {
             let src = gen_syn(&mut rng).text;
             mutate_tokens(&src, &mut rng).into_bytes()
@@ -457,7 +466,7 @@ pub fn gen_defscan(rng: &mut Rng) -> String {
                 9 => body.push(rng.pick(&["&&", "||", "+", "!", "=="]).to_string()),
                 10 => body.push(rng.pick(&["(", ")", ","]).to_string()),
                 11 => body.push("defined".to_string()),
-                12 => body.push(name.to_string()),
+                12 => body.push(if rng.chance(1, 2) { name.to_string() } else { rng.pick(&["F", "G", "H"]).to_string() }),
                 13 if rng.chance(1, 3) => body.push("##".to_string()),
                 _ => body.push(rng.pick(PLAIN).to_string()),
             }
@@ -516,7 +525,14 @@ pub fn gen_defscan(rng: &mut Rng) -> String {
             }
             11 => {
                 let objs: Vec<&(String, Option<usize>)> = macros.iter().filter(|m| m.1.is_none()).collect();
-                cond.push(if objs.is_empty() { p } else { objs[rng.below(objs.len() as u64) as usize].0.clone() });
+                let o = if objs.is_empty() { "A".to_string() } else { objs[rng.below(objs.len() as u64) as usize].0.clone() };
+                // an object-like macro in operator position: what it expands to meets the operand afterwards
+                match rng.below(4) {
+                    0 => cond.push(o),
+                    1 => cond.extend([o, p]),
+                    2 => cond.extend([o, "(".to_string(), p, ")".to_string()]),
+                    _ => cond.extend([o, "(".to_string(), p, ",".to_string(), "Q".to_string(), ")".to_string()]),
+                }
             }
             12 => cond.extend(["!".to_string(), "defined".to_string(), p]),
             13 => cond.push(rng.pick(&["1", "0"]).to_string()),
@@ -571,7 +587,7 @@ pub fn plan(rng: &mut Rng, scale: u64, thorough: bool, repo: &str, hist: &mut Hi
     for c in syn_categories() {
         hist.0.entry(format!("cat/syn/{}", c)).or_insert(0);
     }
-    for (k, c) in syn_categories().iter().enumerate() {
+    for (k, (c, _)) in syn_variants().iter().enumerate() {
         hist.add(&format!("cat/syn/{}", c));
         specs.push(format!("synone:{}", k));
     }
@@ -583,6 +599,14 @@ pub fn plan(rng: &mut Rng, scale: u64, thorough: bool, repo: &str, hist: &mut Hi
             }
             specs.push(format!("{}:{}", kind, seed));
         }
+    }
+    // typed constant expressions in every constant context (typer/src/evaluator.rs)
+    for _ in 0..per(260) {
+        let seed = rng.next() >> 20;
+        for c in &gen_cx(&mut Rng::new(seed)).cats {
+            hist.add(&format!("cat/cx/{}", c));
+        }
+        specs.push(format!("cx:{}", seed));
     }
     // preprocessor-grammar programs (several files + their own API defines) and their token-level mutations
     for (kind, n) in [("pp", 260u64), ("ppmut", 120)] {
@@ -613,7 +637,7 @@ pub fn plan(rng: &mut Rng, scale: u64, thorough: bool, repo: &str, hist: &mut Hi
         let names = super::materialise(&spec).map(|m| pipeline_names(&m.bytes)).unwrap_or_default();
         let heavy = spec.starts_with("repo:") || spec.starts_with("rmut:");
         // the preprocessor does not depend on the target beyond RSSL_TARGET_*: one HLSL flavour + Metal in quick
-        let two_targets = heavy || spec.starts_with("pp:") || spec.starts_with("ppmut:") || spec.starts_with("synone:");
+        let two_targets = heavy || spec.starts_with("cx:") || spec.starts_with("pp:") || spec.starts_with("ppmut:") || spec.starts_with("synone:");
         let defs: Vec<(String, String)> = if rng.chance(1, 5) {
             let (n, v) = *rng.pick(API_DEFINES);
             vec![(n.to_string(), v.to_string())]
@@ -649,3 +673,4 @@ fn pick_mode_named(rng: &mut Rng, names: &[String]) -> Mode {
 include!("c08_grammar.rs");
 include!("c08_pp.rs");
 include!("c08_syn.rs");
+include!("c08_cx.rs");
